@@ -195,3 +195,20 @@ def complete_repr(t):
         else:
             return None
     return None
+
+
+def is_zero_bytes(t):
+    """a constant all-zero byte string however it is written (vec![0; n], [0u8; n], b"\\0..", &[0, 0, ..])"""
+    n = 0
+    while is_t(t) and t.op in ("refv", "conv", "copied", "collected", "deref") and n < 8:
+        t = t.args[0]
+        n += 1
+    if not is_t(t):
+        return False
+    if t.op == "from_elem":
+        return is_t(t.args[0]) and t.args[0].op == "int" and t.args[0].args[0] == 0
+    if t.op == "bytes":
+        return set(t.args[0]) <= {"0"} and len(t.args[0]) > 0
+    if t.op == "agg" and t.args[0] == "array":
+        return len(t.args) > 1 and all(is_t(a) and a.op == "int" and a.args[0] == 0 for a in t.args[1:])
+    return False
